@@ -45,7 +45,11 @@ def judge(ctx, leg, items, links, exp_res, exp_title, o, depth):
                           "(explicit/slug -> item index of the owner; missing = warning)", {**case, "link": name})
             return
         txt = o["texts"][l]
-        if form == "text":
+        if form == "text" and A.icon_link(l + 1):
+            if o["kinds"][l] != ["image"]:
+                ctx.violation(f"link {l + 1} '#{name}': the link's own content (an image without alt text) is not kept as written: children {o['kinds'][l]}", case)
+                return
+        elif form == "text":
             if txt != f"L{l + 1}":
                 ctx.violation(f"link {l + 1} '#{name}': explicit text L{l + 1} not kept (observed {txt!r})", case)
                 return
